@@ -61,6 +61,7 @@ type world struct {
 	dialOut map[int]string // scripted dial outcome for the n-th dial (1-based; dial 1 is kmipclient.Dial itself)
 	ndial   int
 	pmu     sync.Mutex
+	starveForeign bool
 	ptrGen  map[string]int
 	roleTaken map[string]bool
 	ngenSeen  int
@@ -244,12 +245,21 @@ func (wd *world) settle(before map[string]string, since int, released string) {
 }
 
 func (wd *world) releasable() []*sched.Gate {
-	var res []*sched.Gate
+	var res, foreign []*sched.Gate
 	for _, g := range wd.ctl.Parked() {
 		if g.Point == "rt.lock" && wd.lockHolder != 0 {
 			continue // never release a caller into a held mutex
 		}
+		if strings.HasPrefix(g.Role, "g") {
+			// a goroutine the specification does not know (work the library moved to a goroutine of its own): in half of the
+			// runs it is starved - released only when nothing else can run - which is the schedule that exposes deferred cleanup
+			foreign = append(foreign, g)
+			continue
+		}
 		res = append(res, g)
+	}
+	if !wd.starveForeign || len(res) == 0 {
+		res = append(res, foreign...)
 	}
 	return res
 }
@@ -457,6 +467,7 @@ func newWorld(w *vh.Writer, seed int64) *world {
 func runOne(w *vh.Writer, sc Schedule, seed int64, randomSteps int, withClose bool) {
 	w.Emit(map[string]any{"ev": "reset", "id": sc.ID})
 	wd := newWorld(w, seed)
+	wd.starveForeign = seed%2 == 0
 	kmipclient.VerifHook = wd.ctl.Hook
 	// kmipclient.Dial with an enforced version: the first generation exists before any call
 	cl, err := kmipclient.Dial("mem", kmipclient.WithDialerUnsafe(wd.dial), kmipclient.EnforceVersion(kmip.V1_4))
